@@ -44,17 +44,17 @@ CONSTANTS = {
     'quick': dict(MaxDepth=2, BaseSfx=['d', 'de', 'S', 'AL', 'ASd'], LinkSfx=['E', 'e', 'AS'],
                   PlainBaseSfx=['d', 'AS'], PlainLinkSfx=['E', 'e'],
                   DeepBaseSfx=['d', 'AS'], DeepLinkSfx=['e'], Roles=ALL_ROLES, Phases=ALL_PHASES,
-                  RichPhases=['setup'], DeepPhases=['setup'], CdPos=[0, 1, 2, 3, 4], CdForms=['tmp']),
+                  RichPhases=['setup'], DeepPhases=['setup'], CdPos=[0, 1, 2, 3, 4, 5], CdForms=['tmp']),
     'thorough': dict(MaxDepth=3, BaseSfx=['E', 'd', 'de', 'S', 'Se', 'dT', 'AL', 'AS', 'ASd'],
                      LinkSfx=['E', 'e', 'T', 'ed', 'AL', 'AS'],
                      PlainBaseSfx=['d', 'de', 'S', 'AL', 'ASd'], PlainLinkSfx=['E', 'e', 'AS'],
                      DeepBaseSfx=['d', 'AS'], DeepLinkSfx=['E', 'e'], Roles=ALL_ROLES, Phases=ALL_PHASES,
-                     RichPhases=['setup', 'assert'], DeepPhases=['setup'], CdPos=[0, 1, 2, 3, 4],
+                     RichPhases=['setup', 'assert'], DeepPhases=['setup'], CdPos=[0, 1, 2, 3, 4, 5],
                      CdForms=['tmp', 'sub']),
     # random behaviours beyond the exhaustive bound (no absolute FILE-NAMEs: the deviation is not involved)
     'simulate': dict(MaxDepth=6, BaseSfx=SIM_BASE, LinkSfx=SIM_LINK, PlainBaseSfx=SIM_BASE, PlainLinkSfx=SIM_LINK,
                      DeepBaseSfx=SIM_BASE, DeepLinkSfx=SIM_LINK, Roles=ALL_ROLES, Phases=ALL_PHASES,
-                     RichPhases=ALL_PHASES, DeepPhases=ALL_PHASES, CdPos=[0, 1, 2, 3, 4], CdForms=['tmp', 'sub']),
+                     RichPhases=ALL_PHASES, DeepPhases=ALL_PHASES, CdPos=[0, 1, 2, 3, 4, 5], CdForms=['tmp', 'sub']),
 }
 
 
@@ -247,6 +247,8 @@ def concretize(task, cd):
         else:
             want = tag(pa[0]['uses'][n_use - 1]['resolved']) if pa and len(pa[0]['uses']) >= n_use else 'none'
             lines = use_lines(task['role'], p, cd.out, want, n_use)
+            if task['cdpos'] == 5:       # the same symbol once more in the same instruction, without restriction
+                lines = ['file %s = "W @[P%d]@"' % (p, task['depth'])]
             if task['role'] == 'actprog':
                 act = lines
             else:
@@ -441,7 +443,7 @@ def judge(task, o):
 
 # ------------------------------------------------------------------------------------------------ cases
 def prog_key(c):
-    return json.dumps([c['role'], c['phase'], [[i['op'], i['rel'], i['sym'], i['sfx']] for i in c['prog']]])
+    return json.dumps([c['role'], c['phase'], c['cdpos'] == 5, [[i['op'], i['rel'], i['sym'], i['sfx']] for i in c['prog']]])
 
 
 ALT_FIELDS = ('outcome', 'uses')
